@@ -122,6 +122,23 @@ CHECKS = {
                         "preemption granularity is the basic-block edge of instrumented code (library, headers, harness); libstdc++/libc internals are not preempted"],
         "required_probes": ["probe.shared_plan_solved_by_2plus_threads", "fault.preempt", "fault.thread_exit_and_cold_restart"],
     },
+    "C05": {
+        "batches": [("C05", "asan", 4, 20000, 2000000)],
+        "rule": ("one evaluation = one call program: 8 pool arrays, then 1-12 ops from a catalogue of 38 op kinds covering the public entry points of include/dsplib/*.h "
+                 "(array arithmetic / comparison / index lists / masks / slices incl. initializer lists, container utilities, reductions, fft/ifft/rfft/irfft/hilbert "
+                 "with pad/truncate, every plan kind with array and raw-pointer solve, czt, all 24 stream processors, adaptive filters, FIR design, windows, "
+                 "resamplers, median, stft/istft/iscola, welch/mscohere, snr/sinad/thd, xcorr/finddelay/gccphat/findpeaks, random, isprime/factor/nextprime/primes, "
+                 "from_file over the simulated stdio layer, PreambleDetector, Tuner/Delay/Agc, dynamics constructors). In 80 % of the programs one op (in a third, "
+                 "several) is a MISUSE op: exactly one length/index relation is perturbed (0, 1, 2, 3, n-1, n+1, 2n; index lists with -1, -n, n, n+2, empty; RHS "
+                 "longer than the target; plan applied to another length; frame not a multiple of the granule; stdio fault). Programs continue after exceptions on the "
+                 "same objects. distinct_nontrivial = distinct (op kind, outcome returned/threw, argument-class tuple) executed."),
+        "assumptions": ["in-contract classes: scalar element access and peakloc only with valid indices; raw-pointer entry points only with buffers as long as the n passed "
+                        "(n itself may differ from the plan size); reductions and signal-processing free functions on non-empty arrays; sizes/orders >= 1; overlaps < window "
+                        "length; nextprime/primes <= 2^22 (documented as slow above 2^20); allocation failure is not injected (DESIGN 2.4)",
+                        "edge budget per op = max(2e6, 50 x cost model); the largest observed edges/cost ratio is reported as max_edges_per_cost_x1000",
+                        "oracle: returns or throws std::exception; no ASan/UBSan report, signal, std::terminate or budget overrun. Results are not compared with anything"],
+        "extra_stubs": ["stdio layer (sim/simio.cpp: fopen/fseek/fread/feof/fclose wrapped at link time, in-memory files with per-file fault plans)"],
+    },
 }
 
 
@@ -154,7 +171,10 @@ def load_known():
 
 def _merge_ctr(dst, src, prefix=""):
     for k, v in src.items():
-        dst[prefix + k] = dst.get(prefix + k, 0) + v
+        if k.startswith("max_"):
+            dst[prefix + k] = max(dst.get(prefix + k, 0), v)
+        else:
+            dst[prefix + k] = dst.get(prefix + k, 0) + v
 
 
 def handle_violation(pid, rec, exe, engine, tier, log, shrink=True):
@@ -256,6 +276,11 @@ def run_check(pid, tier, seed, nworkers=None, runs_override=None):
     by_class = {}
     for r in viols:
         by_class.setdefault(r.vclass, r)
+    counts = {}
+    for r in viols:
+        counts[r.vclass] = counts.get(r.vclass, 0) + 1
+    if counts:
+        log("[%s] violation classes in this batch: %s" % (pid, "; ".join("%s x%d" % kv for kv in sorted(counts.items(), key=lambda kv: -kv[1]))))
     findings, _fixed = load_known()
     known_sigs = {f["sig"]: f for f in findings if f["property"] == pid}
     reported = []
